@@ -35,6 +35,7 @@ fn main() {
     (args[3].clone(), None)
   };
   match id {
+    "C01" => drive::c01::check(Ctx::new(id, &tier, "exploration"), replay),
     "C02" => drive::c02::check(Ctx::new(id, &tier, "exploration"), replay),
     "C06" => drive::c06::check(Ctx::new(id, &tier, "exploration"), replay),
     "C07" => drive::c07::check(Ctx::new(id, &tier, "exploration"), replay),
